@@ -16,6 +16,7 @@ import GbVerif.Proofs.X86SimAlu3
 import GbVerif.Proofs.X86SimCb
 import GbVerif.Proofs.X86SimBit
 import GbVerif.Proofs.X86SimAdc
+import GbVerif.Proofs.X86SimFlagOps
 /-!
 C01 — translated blocks have the same architectural effect as the interpreter.
 (Structural facts first; the x86 model and per-template simulation lemmas are added by `Proofs/X86*.lean`.)
@@ -365,7 +366,7 @@ example : (match decodeCode (Gen.emitOp 0xc5) with
 encoding `b0` with operand bytes `b1 b2` ends in a host state related to the register file `Interp.runOp` produces from
 `g` (cycles included), with the bus, the host stack and the status byte untouched.  The statement for ALL register-only
 encodings is `RegisterSimulation`; it is PROVED for the register-transfer family (70 encodings) and for the 8-bit
-arithmetic and logic on A with a register or immediate operand, flags included (48 encodings; ADC / SBC: 16 more, `SimulatesF`), and RES / SET b,r of the
+arithmetic and logic on A with a register or immediate operand, flags included (48 encodings; ADC / SBC: 16 more, `SimulatesF`; INC / DEC r, SCF, CCF: 16 more), and RES / SET b,r of the
 CB page (112 encodings: `SimulatesCb`) and BIT b,r (56 encodings: `SimulatesCbF`), and otherwise carried by the
 native differential and the exhaustive `c01.grid`. -/
 
@@ -427,6 +428,15 @@ theorem simulation_carry_partial :
   ⟨fun r b1 b2 => ⟨sim_adc r b1 b2, sim_sbc r b1 b2⟩, fun b1 b2 hb => ⟨sim_ce b1 b2 hb, sim_de b1 b2 hb⟩⟩
 
 example : opcodeAdc .C = 0x89 ∧ opcodeSbc .A = 0x9f := by decide
+
+
+/-- **simulation_inc_partial**: INC r / DEC r for the seven registers (register write, then Z N H from the host's ZF / AF
+with the guest's C kept) and SCF / CCF — 16 encodings, for all states -/
+theorem simulation_inc_partial :
+    (∀ r b1 b2, Simulates (opcodeInc8 r) b1 b2 ∧ Simulates (opcodeDec8 r) b1 b2) ∧ (∀ b1 b2, Simulates 0x37 b1 b2 ∧ Simulates 0x3f b1 b2) :=
+  ⟨fun r b1 b2 => ⟨sim_inc8 r b1 b2, sim_dec8 r b1 b2⟩, fun b1 b2 => ⟨sim_scf b1 b2, sim_ccf b1 b2⟩⟩
+
+example : opcodeInc8 .A = 0x3c ∧ opcodeDec8 .B = 0x05 := by decide
 
 /-- the opcodes covered are the SM83's: LD B,C = 0x41, LD A,n = 0x3E, LD SP,nn = 0x31, DEC HL = 0x2B -/
 example : opcodeLd8 .B .C = 0x41 ∧ opcodeLdI .A = 0x3e ∧ opcodeLd16 .SP = 0x31 ∧ opcodeDec16 .HL = 0x2b := by decide
